@@ -6,10 +6,18 @@ T1  `uses_t1 = True`: the runner calls vk.translate.regenerate_all, which calls 
 T2  for every case: the (sorted) key set of the real `to_dict()` vs the key set the generated table
     derives for that construction (`serial.tablekeys`) and vs the key set of the model's `toDict`
     on the same keyword dictionary (`serial.modelkeys`, which also answers whether the model's twin
-    exists and dumps the same keys).
+    exists and dumps the same keys); and the dumped VALUES (`serial.values`): every value of the real dump, flattened key by
+    key (numbers exactly, strings as code points), vs the values of the model's `toDict` on the same keyword dictionary.
+    Inputs are not confined to small dyadics: the description carries the exact rational of arbitrary doubles (0.1, 1/3,
+    1e-7, 123456.789), ids are mixed case, vectors up to 200 entries, horizons up to 96.
+Sets hold their children BY REFERENCE today: `DeviceSet.to_dict()` returns the live child objects and
+    `DeviceSet.from_dict(ds.to_dict()).devices is ds.devices` (likewise the device wrapped by a multi-flow adaptor), so the
+    set-level round trip is trivially behaviour-preserving for the children. The oracle nevertheless compares children BY
+    VALUE (same class, same dumped settings recursively) and by behaviour (the set's cost / deriv / constraints at probes),
+    so a `to_dict` that dumped child dictionaries and a `from_dict` that rebuilt them would also pass.
 Oracle = the property itself: `twin = cls.from_dict(obj.to_dict())` on the real objects, then id, length,
-    shape, bounds, cbounds / sbounds, every dumped parameter, every constructor argument that was
-    passed, and cost / deriv / every constraint (type, value, Jacobian) at probe flows and prices.
+    shape, bounds, cbounds / sbounds, every dumped VALUE against the SUPPLIED one (exact equality, in the documented
+    storage form), every dumped parameter on the twin, every constructor argument that was passed, and cost / deriv / every constraint (type, value, Jacobian) at probe flows and prices.
 """
 import json, math
 from fractions import Fraction
@@ -110,10 +118,15 @@ def build_kwargs(o):
   return {k: py_val(v, n) for k, v in o['kw']}
 
 
-def build_obj(o):
-  """the leading arguments positionally (as the library's own examples and loaders call the constructors), the rest by keyword."""
+def build_obj(o, keep=None):
+  """the leading arguments positionally (as the library's own examples and loaders call the constructors), the rest by keyword.
+  `keep` (a dict) receives the supplied keyword values: the live objects themselves, numbers / arrays as private copies."""
   dk = C.repo()
   kw = build_kwargs(o)
+  if keep is not None:
+    import copy
+    live = ('fn', 'cons', 'obj', 'objs', 'dict')
+    keep.update({k: (list(kw[k]) if v['t'] in ('cons', 'objs') else kw[k]) if v['t'] in live else copy.deepcopy(kw[k]) for k, v in o['kw']})
   lead = ['device', 'flows'] if o['cls'] in ('MFDeviceSet', 'TwoRatioMFDeviceSet') else (
     ['id', 'devices'] if o['cls'] in ('DeviceSet', 'SubBalancedDeviceSet') else ['id', 'length', 'bounds'])
   names = [k for k, _ in o['kw']]
@@ -176,10 +189,122 @@ def extras(rng):
   return out
 
 
+# ---------------------------------------------------------------- non-dyadic values, mixed-case ids
+# C16's model never computes with these numbers (they are only stored, dumped and read back), so the generator is not
+# confined to small dyadics: the description carries the EXACT rational of an arbitrary double (0.1, 1/3, 1e-7,
+# 123456.789, …), `float()` of which is that double again; dumped vs supplied is then compared with exact equality.
+DECIMALS = [0.1, 1/3, 1e-7, 123456.789, 0.7, 2.5e-3, 1/7, 19.99]
+SMALL = [0.1, 1/3, 1e-7, 2.5e-3, 1/7, 0.7]
+
+
+def fx(x):
+  """a double -> protocol string of its exact rational value."""
+  return C.fs(Fraction(float(x)))
+
+
+def widen(rng, lo, hi, side):
+  """move a (low, high) pair of protocol strings outwards by decimal amounts; side '+' keeps low, '-' keeps high."""
+  a, b = C.pf(lo), C.pf(hi)
+  if a == b and rng.random() < 0.5:
+    return lo, hi                       # keep some zero-width slots
+  if side != '+' and rng.random() < 0.8: a = a - rng.choice(SMALL)
+  if side != '-' and rng.random() < 0.8: b = b + rng.choice(SMALL if rng.random() < 0.9 else DECIMALS)
+  return fx(a), fx(b)
+
+
+def unit(rng): return rng.choice([0.1, 1/3, 0.7, 1/7, 0.95])
+
+
+def decimalise(rng, o):
+  """replace the dyadic numbers of a constructor dictionary by arbitrary doubles, keeping every validator satisfied:
+  bounds / cbounds / sbounds only move outwards, class parameters are redrawn inside their documented ranges."""
+  cls, kw = o['cls'], o['kw']
+  have = dict(kw)
+  side = None
+  if 'bounds' in have:
+    b = have['bounds']
+    lows = [C.pf(x) for x in (b['v'][0] if b['t'] == 'pairVec' else [b['v'][0]] if b['t'] == 'pairNum' else [r[0] for r in b['v']])]
+    highs = [C.pf(x) for x in (b['v'][1] if b['t'] == 'pairVec' else [b['v'][1]] if b['t'] == 'pairNum' else [r[1] for r in b['v']])]
+    side = '-' if cls in ('PVDevice', 'GDevice') or max(highs) <= 0 else ('+' if min(lows) >= 0 else None)
+  n = obj_len(o) if cls not in SET_CLASSES else None
+  out = []
+  for k, v in kw:
+    t = v['t']; v = dict(v)
+    if k in ('bounds', 'sbounds') and t in ('pairNum', 'pairVec', 'table'):
+      sd = side if k == 'bounds' else None
+      if t == 'pairNum':
+        v['v'] = list(widen(rng, v['v'][0], v['v'][1], sd))
+      elif t == 'pairVec':
+        ps = [widen(rng, a, b, sd) for a, b in zip(v['v'][0], v['v'][1])]
+        v['v'] = [[a for a, _ in ps], [b for _, b in ps]]
+      else:
+        v['v'] = [list(widen(rng, r[0], r[1], sd)) for r in v['v']]
+    elif k == 'cbounds' and t == 'pairNum':
+      v['v'] = [fx(C.pf(v['v'][0]) - rng.choice(SMALL)), fx(C.pf(v['v'][1]) + rng.choice(SMALL))]
+    elif k == 'cbounds' and t == 'cbs':
+      v['v'] = [[fx(C.pf(c[0]) - rng.choice(SMALL)), fx(C.pf(c[1]) + rng.choice(SMALL)), c[2], c[3]] for c in v['v']]
+    elif k in ('weight', 'w', 'sign', 't_init', 't_optimal') and t == 'num':
+      v['v'] = fx(rng.choice([1, -1] if k in ('weight', 'sign') else [1])*rng.choice(DECIMALS) + (15 if k.startswith('t_') else 0))
+    elif k == 'profile' and t == 'vec':
+      v['v'] = [fx(rng.choice([1, -1])*rng.choice(DECIMALS)*rng.random()) for _ in range(rng.choice([1, 3, 50, 200]))]
+    elif k == 't_external' and t == 'vec':
+      v['v'] = [fx(rng.choice(DECIMALS[:3] + [19.99, -3.3]) + i*0.1) for i in range(len(v['v']))]
+    elif k == 'ratios' and t == 'vec':
+      v['v'] = [fx(1 + rng.choice(SMALL)), fx(1 + rng.choice(DECIMALS))]
+    elif k == 'cost_coeffs' and t in ('vec', 'mat'):
+      f = lambda row: [fx(C.pf(x) + rng.choice(SMALL)) for x in row]
+      v['v'] = f(v['v']) if t == 'vec' else [f(r) for r in v['v']]
+    elif cls == 'CDevice' and k in ('a', 'b'):
+      v['v'] = fx(-rng.choice(DECIMALS))
+    elif cls in ('CDevice2', 'IDevice2') and k in ('p_l', 'p_h'):
+      if k == 'p_l':       # p_h is redrawn together with p_l so that p_l <= p_h <= 0 slot by slot
+        m = len(v['v']) if t == 'vec' else 1
+        hs = [rng.choice(SMALL + [0.0]) for _ in range(m)]
+        ls = [h + rng.choice(SMALL + [0.0, 123456.789]) for h in hs]
+        o['_ph'] = [fx(-h) for h in hs]
+        v['v'] = [fx(-l) for l in ls] if t == 'vec' else fx(-ls[0])
+      else:
+        v['v'] = (o['_ph']*len(v['v']))[:len(v['v'])] if t == 'vec' else o['_ph'][0]
+    elif cls == 'IDevice' and k in ('a', 'c') and t in ('num', 'vec'):
+      g = (lambda: fx(unit(rng))) if k == 'a' else (lambda: fx(rng.choice(DECIMALS)))
+      v['v'] = [g() for _ in v['v']] if t == 'vec' else g()
+    elif cls == 'SDevice' and t == 'num':
+      if k == 'c1': o['_c1'] = 0.5 + rng.choice(SMALL); v['v'] = fx(o['_c1'])
+      elif k == 'c2': v['v'] = fx(o.get('_c1', 1.0)*unit(rng)) if C.pf(v['v']) != 0 else v['v']
+      elif k == 'c3': v['v'] = fx(rng.choice(SMALL))
+      elif k == 'capacity': v['v'] = fx(1 + 10*unit(rng))
+      elif k in ('damage_depth', 'start', 'reserve', 'efficiency', 'sustainment'): v['v'] = fx(unit(rng))
+      elif k == 'rate_clip': v['v'] = fx(1 + rng.choice(SMALL))
+    elif cls == 'SDevice' and k == 'rate_clip' and t == 'clip':
+      v['v'] = [None if x is None else fx(1 + rng.choice(SMALL)) for x in v['v']]
+    elif cls == 'TDevice' and t in ('num', 'vec'):
+      if k == 'sustainment': v['v'] = fx(unit(rng))
+      elif k == 'efficiency': v['v'] = fx(rng.choice([1, -1])*(0.5 + rng.choice(SMALL)))
+      elif k == 't_range': v['v'] = fx(1 + rng.choice(SMALL))
+      elif k == 'c': v['v'] = [fx(rng.choice(DECIMALS)) for _ in v['v']] if t == 'vec' else fx(rng.choice(DECIMALS))
+    elif cls == 'WindowDevice' and k == 'c' and t == 'num':
+      v['v'] = fx(rng.choice(DECIMALS))
+    out.append([k, v])
+  o.pop('_ph', None); o.pop('_c1', None)
+  o['kw'] = out
+  return o
+
+
+def mixed_id(rng, id, leaf):
+  """ids are matched case-insensitively ((?i) in both id patterns), so mixed case is accepted and must come back."""
+  r = rng.random()
+  if r < 0.3:
+    return id
+  s = ''.join(c.upper() if rng.random() < 0.5 else c for c in id)
+  if r > 0.75:
+    s += rng.choice(['_Kitchen', '-B2', 'X'] + (['(1)', '[Ab]', '+'] if leaf else []))
+  return s
+
+
 def leaf_obj(rng, d, id=None, full=None, with_extras=True):
   """gen.gen_leaf description -> constructor keyword dictionary (ordered)."""
   cls, n, p = d['cls'], d['n'], d.get('prm', {})
-  id = id or d.get('id') or cls.lower()
+  id = mixed_id(rng, id or d.get('id') or cls.lower(), True)
   kw = [['id', V('str', id)], ['length', V('nat', n)], ['bounds', bounds_val(rng, d)]]
   cb = cbounds_val(d)
   tail = []
@@ -232,7 +357,8 @@ def leaf_obj(rng, d, id=None, full=None, with_extras=True):
     if 'c' in p:
       parts.append(['c', V('num', p['c'])])
   kw += parts
-  return {'cls': cls, 'kw': kw}
+  o = {'cls': cls, 'kw': kw}
+  return decimalise(rng, o) if rng.random() < 0.75 else o
 
 
 def gen_window(rng, tier, n=None):
@@ -288,10 +414,11 @@ def tree_obj(rng, t):
       kw.append(['ratios', V('vec', list(t['ratios']), **{'as': 'list'}) if t.get('ratios') else V('none')])
       if t.get('ctype') and (t['ctype'] != 'eq' or rng.random() < 0.5):
         kw.append(['constraint_type', V('str', t['ctype'])])
-      return {'cls': 'TwoRatioMFDeviceSet', 'kw': kw}
+      o = {'cls': 'TwoRatioMFDeviceSet', 'kw': kw}
+      return decimalise(rng, o) if rng.random() < 0.75 else o
     return {'cls': 'MFDeviceSet', 'kw': kw}
   kids = [tree_obj(rng, c) for c in t['ch']]
-  kw = [['id', V('str', t['id'])], ['devices', V('objs', kids)]]
+  kw = [['id', V('str', mixed_id(rng, t['id'], False))], ['devices', V('objs', kids)]]
   if t.get('sb') is not None:
     kw.append(['sbounds', V('table', [list(r) for r in t['sb']], **({'as': 'list'} if rng.random() < 0.3 else {}))])
   elif rng.random() < 0.3:
@@ -302,8 +429,10 @@ def tree_obj(rng, t):
     if not t.get('_full'):
       opt = [x for x in opt if rng.random() < 0.8]
     kw += opt
-    return {'cls': 'SubBalancedDeviceSet', 'kw': kw}
-  return {'cls': 'DeviceSet', 'kw': kw}
+    o = {'cls': 'SubBalancedDeviceSet', 'kw': kw}
+    return decimalise(rng, o) if rng.random() < 0.75 else o
+  o = {'cls': 'DeviceSet', 'kw': kw}
+  return decimalise(rng, o) if rng.random() < 0.75 else o
 
 
 def set_case(rng, tier, cls):
@@ -336,7 +465,7 @@ def set_case(rng, tier, cls):
 
 
 def leaf_case(rng, tier, cls):
-  d = gen_leaf_desc(rng, tier, cls)
+  d = gen_leaf_desc(rng, tier, cls, n=rng.choice([24, 48, 96]) if rng.random() < 0.08 else None)
   return {'kind': 'leaf', 'obj': leaf_obj(rng, d), 'probes': leaf_probes(rng, d), 'n': d['n']}
 
 
@@ -350,8 +479,13 @@ def same_value(a, b, tol=0.0):
     return False
   if isinstance(a, (str, bool)) or isinstance(b, (str, bool)):
     return type(a) == type(b) and a == b
-  if isinstance(a, dict) or isinstance(b, dict) or callable(a) or callable(b):
-    return False   # distinct live objects
+  Base = C.repo().BaseDevice
+  if isinstance(a, Base) and isinstance(b, Base):
+    return same_device(a, b)
+  if isinstance(a, dict) and isinstance(b, dict):
+    return sorted(a.keys()) == sorted(b.keys()) and all(same_value(a[k], b[k]) for k in a)
+  if isinstance(a, dict) or isinstance(b, dict) or callable(a) or callable(b) or isinstance(a, Base) or isinstance(b, Base):
+    return False   # distinct live objects (functions, closures) have no value form
   if isinstance(a, (list, tuple)) and isinstance(b, (list, tuple)):
     return len(a) == len(b) and all(same_value(x, y) for x, y in zip(a, b))
   try:
@@ -363,6 +497,75 @@ def same_value(a, b, tol=0.0):
     return bool(a == b)
   except Exception:
     return False
+
+
+def has_params_kwarg(o):
+  """`params=` is among the constructor keywords of the object or of any nested child (discriminator of the open finding)."""
+  for k, v in o['kw']:
+    if k == 'params': return True
+    if v['t'] == 'obj' and has_params_kwarg(v['v']): return True
+    if v['t'] == 'objs' and any(has_params_kwarg(x) for x in v['v']): return True
+  return False
+
+
+def same_device(a, b):
+  """two device objects are the same device BY VALUE: same class and the same dumped settings (recursively for
+  children). Identity is sufficient but not required: a `to_dict` that dumped child dictionaries and a `from_dict` that
+  rebuilt them would be a genuine value round trip."""
+  if a is b:
+    return True
+  if type(a) is not type(b):
+    return False
+  try:
+    da, db = a.to_dict(), b.to_dict()
+  except Exception:
+    return False
+  return sorted(da.keys()) == sorted(db.keys()) and all(same_value(da[k], db[k]) for k in da)
+
+
+def expected_dump(cls, k, val, n, supplied):
+  """what `to_dict()[k]` must be for the supplied argument, by the documented storage forms (device.py docstrings):
+  bounds -> (len, 2) table; cbounds -> None / list of 4-tuples; rate_clip -> pair; everything else as given.
+  Returns (True, value) or (False, None) when the class computes the stored value (CDevice2's defaulted cbounds)."""
+  N = np()
+  t, v = val['t'], val.get('v')
+  if k in ('bounds', 'sbounds') and t in ('pairNum', 'pairVec', 'table'):
+    if t == 'pairNum': return True, N.array([[C.pf(v[0]), C.pf(v[1])]]*n)
+    if t == 'pairVec': return True, N.array([[C.pf(a), C.pf(b)] for a, b in zip(v[0], v[1])])
+    return True, N.array([[C.pf(r[0]), C.pf(r[1])] for r in v])
+  if k == 'cbounds':
+    if t == 'none': return (False, None) if cls == 'CDevice2' else (True, None)
+    if t == 'pairNum': return True, [(C.pf(v[0]), C.pf(v[1]), 0, n)]
+    return True, supplied
+  if k == 'rate_clip':
+    if t == 'num': return True, (C.pf(v), C.pf(v))
+    if t == 'none': return True, (None, None)
+  if t in ('obj', 'objs'):
+    return False, None      # children are compared by value between original and twin (a dump may hold objects or dictionaries)
+  return True, supplied
+
+
+def flat_py(k, x):
+  """mirror of the Lean driver's `valFlat`: a dumped Python value as [count, entries…]."""
+  N = np()
+  Base = C.repo().BaseDevice
+  if x is None: return [0]
+  if k == 'rate_clip':
+    out = [4]
+    for y in x:
+      out += [0, 0] if y is None else [1, float(y)]
+    return out
+  if k in ('constraints', 'devices'): return [1, len(x)]
+  if isinstance(x, Base) or callable(x): return [0]
+  if isinstance(x, str): return [len(x)] + [ord(c) for c in x]
+  if isinstance(x, bool): return [1, int(x)]
+  if isinstance(x, (list, tuple)) and len(x) and all(isinstance(y, str) for y in x):
+    out = []
+    for y in x:
+      out += [len(y)] + [ord(c) for c in y]
+    return [len(out)] + out
+  a = N.asarray(x, dtype=float).reshape(-1)
+  return [int(a.size)] + [float(y) for y in a]
 
 
 def outcome(thunk):
@@ -402,7 +605,13 @@ def kw_text(o, depth=0):
     if v['t'] == 'dict': return '{' + ', '.join('%r: %s' % (k, tv(x)) for k, x in v['v']) + '}'
     if v['t'] == 'cons': return '<%d constraint dict(s)>' % len(v['v'])
     if v['t'] == 'none': return 'None'
-    return json.dumps(v.get('v'))
+    def num(x):
+      if isinstance(x, list): return '[' + ', '.join(num(y) for y in x) + ']'
+      if isinstance(x, str) and v['t'] not in ('str', 'strs'):
+        try: return repr(C.pf(x))
+        except Exception: return json.dumps(x)
+      return json.dumps(x)
+    return num(v.get('v'))
   return '%s(%s)' % (o['cls'], ', '.join('%s=%s' % (k, tv(v)) for k, v in o['kw']))
 
 
@@ -416,7 +625,7 @@ class C16(Prop):
     'DK.C16.roundtrip_SDevice', 'DK.C16.roundtrip_ADevice', 'DK.C16.old_ADevice_dump_counterexample',
     'DK.C16.roundtrip_TDevice', 'DK.C16.construct_roundtrip_TDevice', 'DK.C16.roundtrip_WindowDevice',
     'DK.C16.WindowDevice_rejects_f', 'DK.C16.roundtrip_DeviceSet', 'DK.C16.roundtrip_SubBalancedDeviceSet',
-    'DK.C16.roundtrip_MFDeviceSet', 'DK.C16.roundtrip_TwoRatioMFDeviceSet', 'DK.C16.TwoRatio_requires_ratios',
+    'DK.C16.roundtrip_MFDeviceSet', 'DK.C16.roundtrip_TwoRatioMFDeviceSet', 'DK.C16.TwoRatio_requires_ratios', 'DK.C16.TwoRatio_rejects_none',
     'DK.Serial.Dev.roundtrip', 'DK.Serial.Dev.construct_roundtrip',
     'DK.C16.keys_Dev', 'DK.C16.keys_TDevice',
     'DK.C16.same_behaviour_Dev', 'DK.C16.same_behaviour_TDevice',
@@ -522,7 +731,16 @@ class C16(Prop):
       except Exception:
         again = 0
       return vec(d.keys(), [again])
+    def impl_values():
+      out = []
+      for k, x in obj.to_dict().items():
+        out += flat_py(k, x)
+      return out
+    have = dict(o['kw'])
+    # exact, except where the class COMPUTES the stored number (CDevice2 sums the bounds for its defaulted cbounds)
+    vtol = 1e-12 if o['cls'] == 'CDevice2' and have.get('cbounds', {'t': 'none'})['t'] == 'none' else 0
     return [
+      Op({'op': 'serial.values', 'cls': o['cls'], 'kw': lean_kw(o)}, impl_values, vtol, 'dumped VALUES vs the model\'s toDict'),
       Op({'op': 'serial.tablekeys', 'cls': o['cls'], 'extra': extra, 'universe': universe}, lambda: vec(obj.to_dict().keys()), 0, 'to_dict keys vs generated table'),
       Op({'op': 'serial.modelkeys', 'cls': o['cls'], 'kw': lean_kw(o), 'universe': universe}, impl_model, 0, 'to_dict keys / twin vs model'),
     ]
@@ -533,15 +751,17 @@ class C16(Prop):
     o = case['obj']; cls = o['cls']
     text = kw_text(o)
     F = lambda kind, detail, **more: {'key': dict({'cls': cls, 'kind': kind}, **more), 'detail': '%s: %s   [constructed as %s]' % (cls, detail, text)}
+    supplied = {}
     try:
-      obj = build_obj(o)
+      obj = build_obj(o, supplied)
     except Exception as e:
       # never on the unchanged tree: every generated parameterisation is one the shipped constructors accept
       return [F('construct-raises', 'the constructor raised %s: %s' % (type(e).__name__, str(e)[:160]), exc=type(e).__name__)]
     try:
       d = obj.to_dict()
     except Exception as e:
-      return [F('to_dict-raises', 'to_dict() raised %s: %s' % (type(e).__name__, str(e)[:120]), exc=type(e).__name__)]
+      via = {'via': 'params-kwarg'} if has_params_kwarg(o) else {}
+      return [F('to_dict-raises', 'to_dict() raised %s: %s' % (type(e).__name__, str(e)[:120]), exc=type(e).__name__, **via)]
     keys = list(d.keys())
     try:
       twin = type(obj).from_dict(d)
@@ -596,10 +816,22 @@ class C16(Prop):
       b = outcome(lambda: getattr(twin, k))
       if b[0] == 'raise' or not same_value(a, getattr(twin, k)):
         fails.append(F('param', 'constructor argument %r: twin has %s, original %r' % (k, show(b), a), param=k))
-    if cls in ('DeviceSet', 'SubBalancedDeviceSet') and not (len(twin.devices) == len(obj.devices) and all(x is y for x, y in zip(twin.devices, obj.devices))):
-      fails.append(F('children', 'the twin does not hold the same child objects'))
-    if cls in ('MFDeviceSet', 'TwoRatioMFDeviceSet') and twin._device is not obj._device:
-      fails.append(F('children', 'the twin does not wrap the same device object'))
+    # every SUPPLIED value must be the dumped value — exactly (np.array_equal, no tolerance): these numbers are only stored
+    n_self = obj_len(o)
+    for k, val in o['kw']:
+      if k not in d:
+        continue
+      ok, want = expected_dump(cls, k, val, n_self, supplied[k])
+      if ok and not same_value(want, d[k]):
+        fails.append(F('dumped-value', 'to_dict()[%r] is %r, but %r was supplied' % (k, d[k], want), param=k))
+    # children BY VALUE (same class, same dumped settings, recursively); their behaviour is compared through the set's
+    # cost / deriv / constraints below. (Today the twin holds the very same child objects: see the module doc-string.)
+    for k in ('devices', 'device'):
+      if k in d and d2 is not None and k in d2 and not same_value(d[k], d2[k]):
+        fails.append(F('children', 'the twin\'s %s are not the original\'s by value (class + dumped settings)' % k))
+    for key, attr in (('devices', '_devices'), ('device', '_device')):
+      if key in supplied and not same_value(vars(obj).get(attr), vars(twin).get(attr)):
+        fails.append(F('children', 'the twin\'s %s are not the original\'s by value (class + dumped settings)' % key))
     # behaviour at the probes
     rows = obj_rows(o); n = case['n']
     for pr in case['probes']:
